@@ -75,6 +75,13 @@ def coverage(db, ctx):
                 sides = [deref_all(unwrap_try(deref_all(s_))) for s_ in (e_["l"], e_["r"])]
                 rng = any(s_.get("k") == "MethodCall" and s_.get("method") == "provide_oov" for s_ in sides) and \
                     any(s_.get("k") == "MethodCall" and s_.get("method") == "len" for s_ in sides)
+    # what is recorded for the later providers is the LENGTH of each new node (CreatedWords is a set of lengths at this position)
+    import re as _re
+    from ..inline import nf as _nfa
+    rec = [_nfa(c_["args"][0]) for c_, _ in walk(po.hir) if c_.get("k") == "MethodCall" and c_.get("method") == "add_word" and c_["args"]]
+    len_ok = bool(rec) and all(_re.fullmatch(r".+\.char_range\(\)\.len\(\)|.+\.num_codepts\(\)|\((.+)\.end\(\) - \1\.begin\(\)\)", r_) for r_ in rec)
+    ctx.ob("provide_oovs|records-node-length", len_ok, "CreatedWords::add_word receives %s (must be the node's length in code points: char_range().len() / "
+                                                      "end() - begin()); an end position coincides with a length only at offset 0" % rec, fn=po)
     ctx.ob("provide_oovs|inserts-all-provided", ok and ins and rng, "provide_oov(self.input, char_offset, ..) then every node in start_size..start_size+num_provided is inserted: %s/%s/%s" % (ok, ins, rng), fn=po)
 
 
